@@ -297,7 +297,7 @@ def viol(clause, cause, c, f, msg):
 
 def missing(prefix, c, f, lp, admitted=None):
     cause = None
-    if f["body"] == "gen" and c.end == "X" and c.at_yield:
+    if f["body"] in ("gen", "agen") and c.end == "X" and c.at_yield:
         cause = "generator_exit_at_yield"
     elif twin_conflict(lp, c.fid, admitted):
         cause = "code_equality_ignores_filename"
@@ -375,7 +375,12 @@ def faithful(prefix, lp, c, f, tr, gt, sampled):
         # (coroutine functions of the simulated world never yield: any recorded yield type stems from
         # an await suspension - the trampoline's token, None from sleep(0), or an asyncio Future)
         cause_of["yield-cover"] = "coroutine_await_suspension"
-    if f["body"] == "gen" and c.at_yield and c.end == "X":
+    if f["body"] == "agen":
+        # (also without a yield / await of its own: a suspension inside an awaited callee travels up through this frame)
+        # listed finding: in an async generator the value handed to the profiler at a `yield` is CPython's internal wrapper object
+        # (async_generator_wrapped_value), and an await suspension looks like a yield of whatever travels up to the event loop
+        cause_of["yield-cover"] = "async_generator_yield_wrapped"
+    if f["body"] in ("gen", "agen") and c.at_yield and c.end == "X":
         cause_of.setdefault("yield-cover", "generator_exit_at_yield")
     if sampled and f["body"] == "gen" and c.yields:
         # F5: trace started at a later resumption j >= 1 (after the j-th yield)
@@ -390,6 +395,16 @@ def faithful(prefix, lp, c, f, tr, gt, sampled):
             if hit:
                 for kname, _ in problems:
                     cause_of[kname] = "sampled_midlife_start"
+                break
+    if sampled and f["body"] == "agen" and (c.yields or c.awaits):
+        # trace started at a later resumption of the async generator (F5): arguments as they were while it was suspended
+        pts = sorted([i for i, _ in c.yields] + list(c.await_idx))
+        for k_p, lo in enumerate(pts):
+            hi = pts[k_p + 1] if k_p + 1 < len(pts) else c.end_idx
+            if any({n: T.tnorm(gt(vals[n])) for n in names} == got_args for vals in states_while_suspended(c, lo, hi)) and got_ret == exp_ret:
+                for kname, _ in problems:
+                    if kname != "yield-cover":
+                        cause_of.setdefault(kname, "sampled_midlife_start")
                 break
     if sampled and f["body"] == "coro":
         # F5 for coroutines: trace started at a later resumption; arguments as after some prefix of
